@@ -449,7 +449,7 @@ func checkC20(r *mon.Run) {
 		cases = append(cases, c20Gen(rng, idx, kind, plen))
 		idx++
 	}
-	reps := r.Pick(1, 4)
+	reps := r.Pick(2, 8)
 	for rep := 0; rep < reps; rep++ {
 		for plen := 0; plen <= 64; plen++ {
 			for k := 0; k < nkinds; k++ {
@@ -458,7 +458,7 @@ func checkC20(r *mon.Run) {
 		}
 	}
 	edges := []int{65, 66, 127, 128, 255, 256, 257, 1231, 1232, 1233, 1471, 1472, 4095, 4096, 8191, 8999, 9000}
-	nrand := r.Pick(40, 500)
+	nrand := r.Pick(80, 1500)
 	for k := 0; k < nkinds; k++ {
 		for _, e := range edges {
 			addCase(k, e)
